@@ -28,6 +28,7 @@ pub fn base_schema() -> Schema {
                         fd("node", vec![ad("id", named("ID").non_null())], named("Node")),
                         fd("user", user_args(), named("User")),
                         fd("me", vec![], named("User").non_null()),
+                        fd("users", vec![ad("ids", named("ID").non_null().list().non_null())], named("User").non_null().list().non_null()),
                     ],
                 },
             },
@@ -129,10 +130,10 @@ pub fn witness(name: &str) -> Option<Project> {
             cf(
                 "Query",
                 "Home",
-                vec![("id", named("ID"))],
+                vec![("uid", named("ID"))],
                 vec![Selection::Linked(
                     head("me", vec![]),
-                    vec![Selection::Scalar(head("Inner", vec![("f", obj(vec![("id", Value::var("id"))]))]))],
+                    vec![Selection::Scalar(head("Inner", vec![("f", obj(vec![("id", Value::var("uid"))]))]))],
                 )],
             ),
             ep("Query", "Home"),
@@ -201,11 +202,75 @@ pub fn witness(name: &str) -> Option<Project> {
             ep("Query", "Home"),
             ep("Query", "Other"),
         ]),
+        // fixed e06371c: a `[ID!]!` variable was declared as `[ID!]`
+        "nonnull-list-var" => project(vec![
+            cf(
+                "Query",
+                "Home",
+                vec![("ids", named("ID").non_null().list().non_null())],
+                vec![Selection::Linked(head("users", vec![("ids", Value::var("ids"))]), vec![sc("name")])],
+            ),
+            ep("Query", "Home"),
+        ]),
+        // fixed 31b992f: a variable used only below a client pointer was declared and never used
+        "pointer-var" => project(vec![
+            (
+                "src/Buddy.ts".to_string(),
+                Decl::ClientPointer(ClientPointer {
+                    parent: "User".into(),
+                    name: "Buddy".into(),
+                    to: named("User"),
+                    vars: vec![],
+                    directives: vec![],
+                    description: None,
+                    selections: vec![Selection::Linked(head("best", vec![]), vec![sc("__link")])],
+                }),
+            ),
+            cf(
+                "Query",
+                "Home",
+                vec![("q", named("String"))],
+                vec![Selection::Linked(
+                    head("me", vec![]),
+                    vec![sc("name"), Selection::Linked(head("Buddy", vec![]), vec![Selection::Linked(head("friend", vec![("name", Value::var("q"))]), vec![sc("age")])])],
+                )],
+            ),
+            ep("Query", "Home"),
+        ]),
+        // a client field variable with a default value: the query gets the default, the reader does not
+        "var-default" => {
+            let mut inner = cf("User", "WithDefault", vec![("n", named("Int"))], vec![Selection::Linked(head("friend", vec![("n", Value::var("n"))]), vec![sc("name")])]);
+            if let Decl::ClientField(f) = &mut inner.1 {
+                f.vars[0].default = Some(Value::Int(0));
+            }
+            project(vec![
+                inner,
+                cf("Query", "Home", vec![], vec![Selection::Linked(head("me", vec![]), vec![sc("WithDefault")])]),
+                ep("Query", "Home"),
+            ])
+        }
+        // a loadable client field of an INTERFACE type: its entrypoint is `node(id:) { ... on Node {`,
+        // and the runtime's inline-fragment test is `__typename === "Node"`
+        "abstract-loadable" => {
+            let mut sel = head("Named", vec![]);
+            sel.directives.push(Directive::loadable(false));
+            project(vec![
+                cf("Node", "Named", vec![], vec![sc("id")]),
+                cf(
+                    "Query",
+                    "Home",
+                    vec![("id", named("ID").non_null())],
+                    vec![Selection::Linked(head("node", vec![("id", Value::var("id"))]), vec![sc("id"), Selection::Scalar(sel)])],
+                ),
+                ep("Query", "Home"),
+            ])
+        }
         _ => return None,
     })
 }
 
-pub const NAMES: &[&str] = &["plain", "f12", "f12b", "f13", "f11neg", "f11collide", "f18", "f18sorted", "reuse"];
+pub const NAMES: &[&str] =
+    &["plain", "f12", "f12b", "f13", "f11neg", "f11collide", "f18", "f18sorted", "reuse", "nonnull-list-var", "pointer-var", "var-default", "abstract-loadable"];
 
 pub fn main(args: &[String]) {
     let name = args.first().map(|s| s.as_str()).unwrap_or("");
